@@ -97,7 +97,7 @@ def _work(args):
             tot[k] += st[k]
         del runs[:]
         del recipes[:]
-    for waiting in ((False, True) if not req else (False,)):
+    for waiting in (False, True):
         for label, kw in schedules(total, tier, rng, ulcorpus.pdu_boundaries(sc)):
             if tier == 'quick' and waiting and label.startswith('cut@') and '+' not in label and int(label[4:]) % 3:
                 continue
